@@ -48,6 +48,16 @@ theorem apply_exact_obs_keyed {S : Schema} (hS : K13.schemaOK S = true) (fx : Fi
   obtain ⟨V, hV⟩ := K13.apply_exact_obs (fx := fx) (K13.keyOrderOn_keyed hS) hA hD
   exact ⟨V, fun X hgX hX => hV X hgX ((dataEqL_iff_norm X A).mp hX)⟩
 
+/-! ## the cells `mergeSafe` admits for inner nodes are the cells the source accepts -/
+
+/-- `meetOps` (the cells of two container / list-instance nodes that `mergeSafe` admits) is exactly the part of the table read from
+the four `switch (cur_op)` of src/diff.c (tools/extractors/diff13.py: `Generated.Diff13.mergeAccepted`, pairs (source, target))
+that does not involve `replace` — an operation inner nodes of the fragment never carry -/
+theorem meetOps_are_accepted_cells (cop sop : Op) :
+    meetOps (some cop) (some sop) = true ↔
+      ((opCode sop, opCode cop) ∈ Generated.Diff13.mergeAccepted ∧ cop ≠ .replace ∧ sop ≠ .replace) := by
+  cases cop <;> cases sop <;> decide
+
 /-! ## the composition law -/
 
 /-- **merge_apply_partial at tree level** (see the header).  `mergeApply S true o A B C fx` =
